@@ -779,9 +779,16 @@ class Translator:
 
     def join(self, jvars, build, env):
         """jvars: python names carried over a join.  build(kend) translates the construct with the continuation
-        kend(env_end) at each fall-through point.  Returns (pattern, env after the join, term builder result)."""
+        kend(env_end) at each fall-through point.  Single pass: the fall-through points are emitted as
+        placeholders and filled in once the shape of the joined variables (type, possibly unbound) is known."""
         ends = []
-        build(lambda e: (ends.append(e), "Ok tt")[1])     # pass 1: collect the environments at the ends
+        self.njoin = getattr(self, "njoin", 0) + 1
+        tag = f"@@J{self.njoin}_"
+
+        def kph(e):
+            ends.append(e)
+            return f"{tag}{len(ends) - 1}@@"
+        term = build(kph)
         info = {}
         for j in jvars:
             tys = {e[j].ty for e in ends if j in e}
@@ -792,8 +799,7 @@ class Translator:
             opt = any(j not in e or e[j].opt for e in ends)
             info[j] = (tys.pop(), opt)
         names = [j for j in jvars if j in info]
-
-        def kend(e):
+        for i, e in enumerate(ends):
             comps = []
             for j in names:
                 ty, opt = info[j]
@@ -805,8 +811,7 @@ class Translator:
                     comps.append(e[j].name)
                 else:
                     comps.append(f"(Some {e[j].name})")
-            return "Ok " + self.tuple_of(comps)
-        term = build(kend)
+            term = term.replace(f"{tag}{i}@@", "Ok " + self.tuple_of(comps))
         env2 = dict(env)
         for j in names:
             env2[j] = Var(cname(j), info[j][0], info[j][1])
